@@ -411,6 +411,7 @@ type lcWallet struct {
 	nextKey     *keychain.KeyDescriptor
 	failFunding bool
 	failList    bool // fault injection: ListTransactions fails
+	keyCount    uint32 // pool account keys derived so far (DeriveNextKey without nextKey)
 	utxoSeq     uint32
 	fundSeq     uint32
 	fundCalls   int
@@ -422,8 +423,30 @@ func (w *lcWallet) RawClientWithMacAuth(ctx context.Context) (context.Context,
 
 	return ctx, 0, nil
 }
-func (w *lcWallet) DeriveNextKey(context.Context, int32) (*keychain.KeyDescriptor, error) {
-	return w.nextKey, nil
+func (w *lcWallet) DeriveNextKey(_ context.Context, family int32) (*keychain.KeyDescriptor, error) {
+	if w.nextKey != nil {
+		return w.nextKey, nil
+	}
+	// a wallet that hands out its pool account keys in index order
+	w.mu.Lock()
+	defer w.mu.Unlock()
+	idx := w.keyCount
+	w.keyCount++
+	_, pub := test.CreateKey(int32(idx))
+	return &keychain.KeyDescriptor{
+		KeyLocator: keychain.KeyLocator{Family: keychain.KeyFamily(family), Index: idx}, PubKey: pub,
+	}, nil
+}
+
+// ListAccounts reports the pool account key family with its key count.
+func (w *lcWallet) ListAccounts(context.Context, string, walletrpc.AddressType) ([]*walletrpc.Account, error) {
+	w.mu.Lock()
+	defer w.mu.Unlock()
+	return []*walletrpc.Account{
+		{Name: "default", DerivationPath: "m/84'/1'/0'", ExternalKeyCount: 7},
+		{Name: "act:220", DerivationPath: fmt.Sprintf("m/%d'/%d'/%d'", keychain.BIP0043Purpose,
+			chaincfg.TestNet3Params.HDCoinType, poolscript.AccountKeyFamily), ExternalKeyCount: w.keyCount},
+	}, nil
 }
 func (w *lcWallet) DeriveKey(_ context.Context, l *keychain.KeyLocator) (*keychain.KeyDescriptor, error) {
 	_, pub := test.CreateKey(int32(l.Index))
